@@ -1,5 +1,31 @@
 package parser
 
+import "github.com/xjslang/xjs/token"
+
 // Accessors for unexported parser state used by the harnesses.
 
 func ZZContextDepth(p *Parser) int { return len(p.contextStack) }
+
+func ZZHasPrefix(p *Parser, t token.Type) bool {
+	_, ok := p.prefixParseFns[t]
+	return ok
+}
+
+func ZZHasInfix(p *Parser, t token.Type) bool {
+	_, ok := p.infixParseFns[t]
+	return ok
+}
+
+func ZZOperatorCounts(pb *Builder) (int, int, int) {
+	return len(pb.prefixOperators), len(pb.infixOperators), len(pb.postfixOperators)
+}
+
+func ZZPrecedenceOf(p *Parser, t token.Type) (int, bool) {
+	v, ok := p.precedences[t]
+	return v, ok
+}
+
+func ZZGlobalPrecedence(t token.Type) (int, bool) {
+	v, ok := precedences[t]
+	return v, ok
+}
